@@ -42,6 +42,7 @@ REQUIRED = {
     "outside_points": 300,
     "bc_approach_points": 300,
     "bc_outside_points": 100,
+    "bc_corner_points": 30,
     "insertions_checked": 600,
     "compiled_inserter_compared": 100,
     "redzone_interpolations": 200,
@@ -345,6 +346,48 @@ def run_shard(spec: dict) -> ShardResult:
                         except Exception as exc:
                             res.violation(f"interpolate(bc=..., fill=...) raised {type(exc).__name__}: {str(exc)[:200]}", case)
                     res.case((gkey, cond_["kind"], upper, "bc_approach"))
+
+            # ---- (5b) corner strips of grids with two non-periodic axes --------------------------
+            # support = corner cell, the two adjacent wall ghost cells and the corner ghost cell, which is
+            # documented as interpolated from (= the mean of) those two wall ghost cells
+            if len(info["shape"]) == 2 and all("sides" in ax for ax in structure["axes"]):
+                for ux in (False, True):
+                    for uy in (False, True):
+                        idx = [info["shape"][0] - 1 if ux else 0, info["shape"][1] - 1 if uy else 0]
+                        c1 = f.data[tuple(idx)]
+                        ghosts = []
+                        for axis, upper in ((0, ux), (1, uy)):
+                            N = info["shape"][axis]
+                            cond_ = structure["axes"][axis]["sides"][int(upper)]
+                            idx2 = list(idx)
+                            idx2[axis] = (N - 2 if upper else 1) if N >= 2 else idx[axis]
+                            c2 = f.data[tuple(idx2)]
+                            fshape = bcm.face_shape(info["shape"], axis)
+                            fidx = tuple(i for a, i in enumerate(idx) if a != axis)
+                            v = bcm._param(cond_["v"], (), fshape)[fidx] if fshape else float(np.asarray(cond_["v"]))
+                            beta = (bcm._param(cond_["beta"], (), fshape)[fidx] if fshape else float(np.asarray(cond_["beta"]))) if cond_["kind"] == "mixed" else 0.0
+                            ghosts.append(ghost_from_condition(cond_, c1, c2, dxs[axis], v, beta))
+                        gx, gy = ghosts
+                        corner = (gx + gy) / 2
+                        centre = np.array([lo + (i + 0.5) * d for (lo, _), i, d in zip(info["bounds"], idx, dxs)])
+                        for _ in range(4):
+                            lx, ly = (float(t) for t in rng.uniform(0.05, 0.95, size=2))
+                            p = centre + np.array([(1 if ux else -1) * lx * dxs[0] / 2, (1 if uy else -1) * ly * dxs[1] / 2])
+                            wx, wy = lx / 2, ly / 2
+                            want = (1 - wx) * (1 - wy) * c1 + wx * (1 - wy) * gx + (1 - wx) * wy * gy + wx * wy * corner
+                            case = {**case0, "bc": spec_data, "corner": ("x+" if ux else "x-", "y+" if uy else "y-"), "point": p.tolist()}
+                            try:
+                                have = f.interpolate(p, bc=spec_data)
+                            except Exception as exc:
+                                res.violation(f"interpolate(bc=...) in a corner strip raised {type(exc).__name__}: {str(exc)[:200]}", case)
+                                break
+                            res.count("bc_corner_points")
+                            condn = sum((abs(p[a]) + abs(info["bounds"][a][0])) / dxs[a] for a in (0, 1))
+                            tol = 256 * EPS * (abs(c1) + abs(gx) + abs(gy)) * (1 + condn) + 1e-300
+                            if abs(have - want) > tol:
+                                res.violation("interpolation with boundary conditions in a corner strip is not the bilinear interpolant of cell, wall ghost cells and their mean",
+                                              case, have=have, want=want, cell=c1, ghost_x=gx, ghost_y=gy)
+                                break
 
         # ---- interpolate_to_grid ----------------------------------------------------------
         if cls in ("UnitGrid", "CartesianGrid") and rank == 0 and dtype == "float64":
